@@ -528,3 +528,140 @@ def pathfam(rng):
         out += ["\tuse%d(o)" % k for k in range(nuse)]
         out += ["}", ""]
     return "\n".join(out)
+
+
+def closurefam(rng):
+    """Program family around closures whose summaries are built late: closures created in factory functions (one
+    factory per variable, or one shared by several), capturing a pointer to a caller's local; the local is assigned
+    before or after the closure is created (the second reaches the closure body only through the bound-label
+    mechanism); reader, writer and getter closures; a bound method value and an interface method callee. The
+    statements live in main or in a helper called from main. With summaries built on demand the closure's summary is
+    built while the traversal is already under way."""
+    n = 2 + rng.below(3)
+    extra = rng.below(4)
+    out = ["package main", ""]
+    if extra:
+        # declared only when used: the analyser is not exercised on unreachable methods here (8.2, observations)
+        out += ["type S struct{ f string }", "type I interface{ Do(x string) }",
+                "type A struct{ s *S }", "func (a A) Do(x string) { a.s.f = x }",
+                "type B struct{}", "func (B) Do(x string) { sink1(x) }", ""]
+    out += ['func source1() string { return "s" }', 'func source2() string { return "t" }',
+            "func sink1(x any)      {}", ""]
+    body = []
+    decl = {}
+    kinds = []
+    shared = rng.chance(30)
+    for i in range(n):
+        k = rng.pick(["sink", "sink", "get", "write", "inline"])
+        kinds.append(k)
+        fi = 0 if (shared and k == "sink") else i
+        if k == "sink":
+            decl["mk%d" % fi] = "func mk%d(p *string) func() {\n\treturn func() { sink1(*p) }\n}" % fi
+        elif k == "get":
+            decl["mkg%d" % i] = "func mkg%d(p *string) func() string {\n\treturn func() string { return *p }\n}" % i
+        elif k == "write":
+            decl["mkw%d" % i] = "func mkw%d(p *string) func(string) {\n\treturn func(x string) { *p = x }\n}" % i
+        body.append('v%d := "c%d"' % (i, i))
+    src = rng.pick(["s", "s", "source2()"])
+    body.append("s := source1()")
+    body.append("_ = s")
+    early = [rng.chance(35) for _ in range(n)]
+    for i in range(n):
+        if early[i]:
+            body.append("v%d = %s" % (i, src if rng.chance(80) else '"clean"'))
+    for i, k in enumerate(kinds):
+        fi = 0 if (shared and k == "sink") else i
+        if k == "sink":
+            body.append("c%d := mk%d(&v%d)" % (i, fi, i))
+        elif k == "get":
+            body.append("c%d := mkg%d(&v%d)" % (i, i, i))
+        elif k == "write":
+            body.append("c%d := mkw%d(&v%d)" % (i, i, i))
+        else:
+            body.append("c%d := func() { sink1(v%d) }" % (i, i))
+    order = list(range(n))
+    for i in range(n - 1, 0, -1):
+        j = rng.below(i + 1)
+        order[i], order[j] = order[j], order[i]
+    for i in order:
+        if not early[i] and kinds[i] != "write":
+            body.append("v%d = %s" % (i, src if rng.chance(85) else '"clean"'))
+    calls = []
+    for i, k in enumerate(kinds):
+        if k in ("sink", "inline"):
+            calls.append("c%d()" % i)
+        elif k == "get":
+            calls.append("sink1(c%d())" % i)
+        else:
+            calls.append("c%d(%s)" % (i, src))
+            calls.append("sink1(v%d)" % i)
+    for i in range(len(calls) - 1, 0, -1):
+        j = rng.below(i + 1)
+        if not (calls[i].startswith("sink1(v") or calls[j].startswith("sink1(v")):
+            calls[i], calls[j] = calls[j], calls[i]
+    body += calls
+    if extra == 1:
+        body += ["a := A{&S{}}", "m := a.Do", "m(%s)" % src, "sink1(a.s.f)"]
+    elif extra == 2:
+        body += ["var i I = B{}", "if len(v0) > 5 {", "\ti = A{&S{}}", "}", "i.Do(%s)" % src]
+    elif extra == 3:
+        body += ["m := B{}.Do", "m(v0)"]
+    for name in sorted(decl):
+        out += [decl[name], ""]
+    if rng.chance(50):
+        out += ["func run() {"] + ["\t" + b for b in body] + ["}", "", "func main() {", "\trun()", "}", ""]
+    else:
+        out += ["func main() {"] + ["\t" + b for b in body] + ["}", ""]
+    return "\n".join(out)
+
+
+def indirectfam(rng):
+    """Program family for the escape analysis' indirect calls: a function value that is, depending on a branch, a
+    closure allocated locally (storing its argument into a captured local object) or a function from elsewhere (a
+    parameter, a field of a parameter, a package-level variable); the call sits in a loop or not; the captured object is
+    then published (global, return value) or not. The transfer function of such a call must stay monotone when the
+    function value gains a non-local pointee, and loops must reach the same fixpoint in every block order."""
+    out = ["package main", "",
+           "type T struct{ v int }", "type Box struct {", "\tp *T", "\tq *T", "}", "type Holder struct{ f func(*T) }", "",
+           "var sink *Box", "var keep *T", "var GFn func(*T)", "",
+           "func cond() bool      { return sink == nil }", "func retain(p *T)     { keep = p }", ""]
+    nrun = 1 + rng.below(2)
+    calls = []
+    for k in range(nrun):
+        local_body = rng.pick(["box.p = p", "box.p = p", "box.q = p", "box.q = box.p; box.p = p", "box.p = p; p.v++"])
+        alt = rng.pick(["holder.f", "holder.f", "GFn", "fp"])
+        second_local = rng.chance(30)
+        loop = rng.pick(["for", "for", "none", "twice"])
+        publish = rng.pick(["sink = box", "sink = box", "return", "keep = box.p", "none"])
+        ret = " *Box" if publish == "return" else ""
+        out += ["func run%d(holder *Holder, fp func(*T), x *T, c bool, n int)%s {" % (k, ret),
+                "\tbox := &Box{}",
+                "\th := func(p *T) { %s }" % local_body,
+                "\tif c {", "\t\th = %s" % alt, "\t}"]
+        if second_local:
+            out += ["\tif n > 7 {", "\t\th = func(p *T) { box.q = p }", "\t}"]
+        if loop == "for":
+            out += ["\tfor i := 0; i < n; i++ {", "\t\th(x)", "\t}"]
+        elif loop == "twice":
+            out += ["\th(x)", "\th(box.p)" if rng.chance(50) else "\th(x)"]
+        else:
+            out += ["\th(x)"]
+        if publish == "return":
+            out += ["\treturn box"]
+        elif publish != "none":
+            out += ["\t" + publish]
+        else:
+            out += ["\t_ = box"]
+        out += ["}", ""]
+        arg = rng.pick(["harmless", "harmless", "retain", "GFn"])
+        hold = rng.pick(["harmless", "retain"])
+        call = "run%d(&Holder{f: %s}, %s, x, cond(), 3)" % (k, hold, arg)
+        calls.append("b%d := %s" % (k, call) if publish == "return" else call)
+        if publish == "return":
+            calls.append(rng.pick(["sink = b%d" % k, "_ = b%d" % k, "keep = b%d.p" % k]))
+    out += ["func main() {", "\tx := &T{}", "\ttotal := 0",
+            "\tharmless := func(p *T) { total += p.v }",
+            "\tGFn = %s" % rng.pick(["retain", "harmless"])]
+    out += ["\t" + c for c in calls]
+    out += ["\tx.v = 1", "\t_ = total", "\t_ = harmless", "\tretain(&T{})", "}", ""]
+    return "\n".join(out)
